@@ -126,3 +126,23 @@ func init() {
 		NotDecided:  "the invariants themselves (ElectionSafety, LogMatching, LeaderCompleteness, StateMachineSafety, LeaderAppendOnly) over all schedules: they need the spec-level argument (model checking) plus C02 fidelity; nothing here decides them.",
 		Assumptions: commonAssumptions})
 }
+
+func init() {
+	const basis = " Nothing here decides the invariant itself over all schedules: that needs the spec-level argument (model checking of the specification) of which this fidelity is the implementation-side half."
+	prop(&PropInfo{ID: "C09", Level: "other",
+		Explanation: "(KV-FIDELITY) every critical section of the generated Raft key-value store - the server archetypes (an entry is answered only when it is applied at the leader, Gets go through the log) and the client archetype (request numbering, retry on failure / timeout, filtering of stale and duplicate responses by idx) -, every archetype table entry and every operator definition is the image of raftkvs.tla; (KV-WIRING) the hand-written client bootstrap numbers, submits and collects requests one at a time through the channels the archetype reads and writes. Linearizability is argued for the specification; the implementation inherits it only while it takes the specification's steps.",
+		NotDecided:  "linearizability of all concurrent histories (a predicate over histories, schedules and crashes)." + basis,
+		Assumptions: commonAssumptions})
+	prop(&PropInfo{ID: "C14", Level: "other",
+		Explanation: "(PB-FIDELITY) every critical section of the generated primary-backup store - synchronous replication to every live backup before the primary answers, synchronisation of a new primary to the highest version before it serves, version numbering, client retry - and every table entry / operator definition is the image of pbkvs.tla; (PB-WIRING) replicas and clients are bound to resources of the kinds the specification's mapping macros stand for.",
+		NotDecided:  "ConsistencyOK and linearizability over all schedules and crash sequences." + basis,
+		Assumptions: commonAssumptions})
+	prop(&PropInfo{ID: "C15", Level: "other",
+		Explanation: "(LOCK-FIDELITY) every critical section of the generated lock service - grant on an empty queue, grant to the next in queue on unlock, append / tail of the queue, the client's wait for the grant - and every table entry / operator definition is the image of locksvc.tla.",
+		NotDecided:  "mutual exclusion and FIFO service over all interleavings and delivery orders." + basis,
+		Assumptions: commonAssumptions})
+	prop(&PropInfo{ID: "C16", Level: "other",
+		Explanation: "(SYS-FIDELITY) every critical section, table entry and operator definition of the generated dqueue, load balancer, proxy, shared counter, gcounter, shopcart, nested-CRDT and replicated-KV systems is the image of its specification; in particular every assertion written in a specification is present, with the same condition, in the generated section.",
+		NotDecided:  "the invariants (exactly-once hand-off in order, buffer bounds, proxy accuracy, counter total, convergence, monotonicity) over all schedules and crash sequences." + basis,
+		Assumptions: commonAssumptions})
+}
